@@ -156,7 +156,7 @@ def build_driver(name, variant, sources=None, extra_cflags=(), extra_ldflags=(),
     if gomp_shim:
         srcs.append(os.path.join(VERIF, 'drivers', 'gomp_shim.c'))
     h = hashlib.sha256()
-    for s in srcs + [os.path.join(VERIF, 'drivers', f) for f in sorted(os.listdir(os.path.join(VERIF, 'drivers'))) if f.endswith('.h')]:
+    for s in srcs + [os.path.join(VERIF, 'drivers', f) for f in sorted(os.listdir(os.path.join(VERIF, 'drivers'))) if f.endswith('.h') or (name.startswith('fz_') and f.endswith('.c'))]:   # fz_* targets #include other drivers
         with open(s, 'rb') as fh:
             h.update(fh.read())
     key = _sha(h.hexdigest(), lib, ' '.join(extra_cflags), ' '.join(extra_ldflags), gomp_shim, cc)[:16]
